@@ -66,7 +66,7 @@ TESTS = {'builtins.isinstance', 'builtins.callable', 'builtins.bool',
 
 class Use:
     __slots__ = ('node', 'mode', 'detail', 'via', 'stmt', 'loop_yields',
-                 'loop_exits', 'alias')
+                 'loop_exits', 'alias', 'chain')
 
     def __init__(self, node, mode, detail='', via=None):
         self.node = node
@@ -77,6 +77,7 @@ class Use:
         self.loop_yields = False
         self.loop_exits = False
         self.alias = None
+        self.chain = []       # every local name the value went through
 
     def __repr__(self):
         return '<Use %s %s>' % (self.mode, self.detail)
@@ -208,6 +209,7 @@ class Consumption:
                         al = self.uses(fi, t.id, depth + 1, seen)
                         for u in al:
                             u.alias = u.alias or t.id
+                            u.chain.append(t.id)
                         out.extend(al)
                         if not al:
                             out.append(self._mk(fi, node, 'alias', t.id))
@@ -385,7 +387,20 @@ class Consumption:
     def _element_modes(self, fi, vararg):
         """How the callee treats the *elements* of its *args."""
         modes = set()
+        handled = False
+        # (f(v) for v in args): what happens to each element is what
+        # happens to the comprehension variable
+        for comp in ast.walk(fi.node):
+            if isinstance(comp, ast.comprehension) and isinstance(
+                    comp.iter, ast.Name) and comp.iter.id == vararg:
+                handled = True
+                for t in ast.walk(comp.target):
+                    if isinstance(t, ast.Name):
+                        modes |= self.summary_local(fi, t.id)
         for u in self.uses(fi, vararg):
+            if handled and u.mode in ('lazy', 'eager', 'star', 'test',
+                                      'lazy-then-eager'):
+                continue
             if u.mode == 'loop' and u.stmt is not None:
                 for t in ast.walk(u.stmt.target):
                     if isinstance(t, ast.Name):
